@@ -65,13 +65,15 @@ fn any_saved_ctx(cols: usize, rows: usize) -> SavedCtx {
     let c = any_usize();
     let r = any_usize();
     assume(c < cols && r < rows);
-    SavedCtx {
-        cursor_col: c,
-        cursor_row: r,
-        pen: any_pen(),
-        origin_mode: any_bool(),
-        auto_wrap_mode: any_bool(),
-    }
+    // constructor + field assignments instead of a struct literal: a field added to the struct by
+    // a later change of /repo keeps its default here instead of breaking the harness build
+    let mut s = SavedCtx::default();
+    s.cursor_col = c;
+    s.cursor_row = r;
+    s.pen = any_pen();
+    s.origin_mode = any_bool();
+    s.auto_wrap_mode = any_bool();
+    s
 }
 
 /// an arbitrary terminal satisfying InvT (DESIGN.md section 3.1) within the instance's geometry.
@@ -152,41 +154,39 @@ fn mk_terminal_small(c: &TCfg) -> Terminal {
     let parked_rows = if c.parked_rows == 0 { rows } else { c.parked_rows };
     let active_charset = any_usize();
     assume(active_charset < 2);
-    Terminal {
-        cols,
-        rows,
-        buffer,
-        other_buffer: other,
-        active_buffer_type: if alt { BufferType::Alternate } else { BufferType::Primary },
-        scrollback_limit: cfg_limit,
-        cursor: Cursor {
-            col,
-            row,
-            visible: any_bool(),
-        },
-        pen: any_pen(),
-        charsets: [any_charset(), any_charset()],
-        active_charset,
-        tabs,
-        insert_mode: any_bool(),
-        origin_mode: any_bool(),
-        auto_wrap_mode: any_bool(),
-        new_line_mode: any_bool(),
-        cursor_keys_mode: if any_bool() { CursorKeysMode::Application } else { CursorKeysMode::Normal },
-        pending_wrap: col == cols,
-        top_margin: top,
-        bottom_margin: bottom,
-        saved_ctx: any_saved_ctx(cols, rows),
-        alternate_saved_ctx: {
-            let mut x = any_saved_ctx(cols, parked_rows);
-            if c.asrow != SYM {
-                x.cursor_row = c.asrow;
-            }
-            x
-        },
-        dirty_lines: mk_dirty(rows, false),
-        xtwinops: false,
-    }
+    // start from the real constructor (tiny limit: no up-front reservation) and overwrite the state
+    // field by field - see any_saved_ctx for why no struct literal is used
+    let mut t = Terminal::new((cols, rows), Some(0));
+    t.buffer = buffer;
+    t.other_buffer = other;
+    t.active_buffer_type = if alt { BufferType::Alternate } else { BufferType::Primary };
+    t.scrollback_limit = cfg_limit;
+    t.cursor.col = col;
+    t.cursor.row = row;
+    t.cursor.visible = any_bool();
+    t.pen = any_pen();
+    t.charsets = [any_charset(), any_charset()];
+    t.active_charset = active_charset;
+    t.tabs = tabs;
+    t.insert_mode = any_bool();
+    t.origin_mode = any_bool();
+    t.auto_wrap_mode = any_bool();
+    t.new_line_mode = any_bool();
+    t.cursor_keys_mode = if any_bool() { CursorKeysMode::Application } else { CursorKeysMode::Normal };
+    t.pending_wrap = col == cols;
+    t.top_margin = top;
+    t.bottom_margin = bottom;
+    t.saved_ctx = any_saved_ctx(cols, rows);
+    t.alternate_saved_ctx = {
+        let mut x = any_saved_ctx(cols, parked_rows);
+        if c.asrow != SYM {
+            x.cursor_row = c.asrow;
+        }
+        x
+    };
+    t.dirty_lines = mk_dirty(rows, false);
+    t.xtwinops = false;
+    t
 }
 
 pub(crate) fn forget(t: Terminal) {
@@ -1430,91 +1430,6 @@ pub(crate) fn t_print_or_rep(c: TCfg, rep_arg: u32) {
     kv_cover!(last && !pw, "print in the last column");
     kv_end!();
     forget(t);
-}
-
-// ------------------------------------------------------------------ REP (C04): twin terminals
-
-pub(crate) fn clone_term(t: &Terminal) -> Terminal {
-    let mut d = mk_dirty(t.rows, false);
-    for r in 0..t.rows {
-        if dl_get(&t.dirty_lines, r) {
-            d.add(r);
-        }
-    }
-    Terminal {
-        cols: t.cols,
-        rows: t.rows,
-        buffer: b_clone(&t.buffer),
-        other_buffer: b_clone(&t.other_buffer),
-        active_buffer_type: if t.active_buffer_type == BufferType::Primary { BufferType::Primary } else { BufferType::Alternate },
-        scrollback_limit: t.scrollback_limit,
-        cursor: t.cursor,
-        pen: t.pen,
-        charsets: [
-            if t.charsets[0] == Charset::Drawing { Charset::Drawing } else { Charset::Ascii },
-            if t.charsets[1] == Charset::Drawing { Charset::Drawing } else { Charset::Ascii },
-        ],
-        active_charset: t.active_charset,
-        tabs: t.tabs.clone(),
-        insert_mode: t.insert_mode,
-        origin_mode: t.origin_mode,
-        auto_wrap_mode: t.auto_wrap_mode,
-        new_line_mode: t.new_line_mode,
-        cursor_keys_mode: t.cursor_keys_mode,
-        pending_wrap: t.pending_wrap,
-        top_margin: t.top_margin,
-        bottom_margin: t.bottom_margin,
-        saved_ctx: SavedCtx {
-            cursor_col: t.saved_ctx.cursor_col,
-            cursor_row: t.saved_ctx.cursor_row,
-            pen: t.saved_ctx.pen,
-            origin_mode: t.saved_ctx.origin_mode,
-            auto_wrap_mode: t.saved_ctx.auto_wrap_mode,
-        },
-        alternate_saved_ctx: SavedCtx {
-            cursor_col: t.alternate_saved_ctx.cursor_col,
-            cursor_row: t.alternate_saved_ctx.cursor_row,
-            pen: t.alternate_saved_ctx.pen,
-            origin_mode: t.alternate_saved_ctx.origin_mode,
-            auto_wrap_mode: t.alternate_saved_ctx.auto_wrap_mode,
-        },
-        dirty_lines: d,
-        xtwinops: t.xtwinops,
-    }
-}
-
-/// T-rep: REP n == typing the character left of the cursor n times (n a constant of the instance)
-pub(crate) fn t_rep(c: TCfg, n: u16) {
-    let mut a = mk_terminal(&c);
-    let mut b = clone_term(&a);
-    let pre = snap(&a);
-    let tw = tab_witness(&a);
-    let reps = n1(n);
-    a.execute(Function::Rep(n));
-    if pre.col > 0 {
-        let left = cell_at(&b, pre.len - c.rows + pre.row, pre.col - 1).char();
-        for _ in 0..reps {
-            b.execute(Function::Print(left));
-        }
-    }
-    assert!(b_len(&a.buffer) == b_len(&b.buffer), "[C04] REP n scrolls exactly like typing the character n times");
-    let w = any_wit(b_len(&a.buffer), c.cols);
-    assert!(cell_at(&a, w.i, w.c) == cell_at(&b, w.i, w.c), "[C04] REP n repeats the character left of the cursor n times as if typed");
-    assert!(mark_at(&a, w.i) == mark_at(&b, w.i), "[C04] REP n wraps exactly like typing the character n times");
-    assert!(a.cursor == b.cursor && a.pending_wrap == b.pending_wrap, "[C04] REP n leaves the cursor where typing would");
-    let r = any_in(0, c.rows - 1);
-    assert!(dl_get(&a.dirty_lines, r) == dl_get(&b.dirty_lines, r), "[C15] REP n reports the rows typing would report");
-    if pre.col == 0 {
-        let mut allow = Allow::default();
-        allow.cursor = false;
-        frame(&pre, &a, &allow, &tw);
-    }
-    assert_inv(&a);
-    kv_cover!(pre.col == c.cols, "wrap-pending column");
-    kv_cover!(pre.col == 0, "nothing to repeat in the first column");
-    kv_end!();
-    forget(a);
-    forget(b);
 }
 
 // ------------------------------------------------------------------ family: screen switching (C16, C17)
